@@ -57,8 +57,13 @@ func zzBalance(supi string, rg int32) int64 {
 	return v
 }
 
-func zzIndicator(label string) models.QuotaManagementIndicator {
-	switch vx.Choice(label, 4) {
+func zzIndicator(label string) models.QuotaManagementIndicator { return zzIndicatorN(label, 4) }
+
+func zzIndicatorN(label string, n int) models.QuotaManagementIndicator {
+	if n == 1 {
+		return models.QuotaManagementIndicator_OFFLINE_CHARGING
+	}
+	switch vx.Choice(label, n) {
 	case 0:
 		return models.QuotaManagementIndicator_ONLINE_CHARGING
 	case 1:
